@@ -34,7 +34,11 @@ impl Mat {
 
 /// source spelling of a canonical element text
 fn spell(kind: &str, t: &str) -> String {
-  match kind { "string" => t.to_string(), _ => t.to_string() }
+  match kind {
+    // canonical complex text is "re,im"
+    "c64" => match t.split_once(',') { Some((re, im)) => if let Some(m) = im.strip_prefix('-') { format!("{}-{}i", re, m) } else { format!("{}+{}i", re, im) }, None => t.to_string() },
+    _ => t.to_string(),
+  }
 }
 
 #[derive(Clone, Debug, PartialEq)]
@@ -51,6 +55,7 @@ fn dim_forms(d: usize, tier: Tier) -> Vec<Ix> {
   let mut v = vec![Ix::S(1), Ix::S(d), Ix::S(d + 1), Ix::S(0), Ix::All, Ix::R(1, d, true), Ix::R(1, d + 1, true)];
   if d >= 2 { v.push(Ix::V(vec![1, d])); v.push(Ix::V(vec![d, 1])); v.push(Ix::R(2, d, true)); }
   v.push(Ix::V(vec![1, d + 1]));
+  if d >= 2 { let mut w: Vec<i64> = vec![1]; w.extend(1..d); v.push(Ix::V(w)); }
   // an invalid position after, and between, valid ones (the statement must fail before anything is written)
   v.push(Ix::V(vec![1, 0]));
   if d >= 2 { v.push(Ix::V(vec![1, d + 1, 2])); }
@@ -73,11 +78,30 @@ fn lin_forms(n: usize, tier: Tier) -> Vec<Ix> {
     Ix::M((0..n as usize + 1).map(|i| i % 2 == 0).collect())];
   if n >= 2 { v.push(Ix::M((0..n as usize - 1).map(|i| i % 2 == 0).collect())); }
   v.push(Ix::V(vec![1, 0])); v.push(Ix::V(vec![1, n + 1, 2])); v.push(Ix::V(vec![2, 0, 1]));
+  // as many index values as x has elements, one of them repeated (not every element is addressed), and the full reversed permutation
+  if n >= 2 { let mut w: Vec<i64> = vec![1]; w.extend(1..n); v.push(Ix::V(w)); v.push(Ix::V((1..=n).rev().collect())); }
   if tier == Tier::Thorough { v.push(Ix::V(vec![1, 2, n])); v.push(Ix::V(vec![n, 2, 1])); v.push(Ix::M((0..n as usize).map(|i| i % 2 == 1).collect())); v.push(Ix::M(vec![false; n as usize])); }
   v
 }
 
 pub fn ops_for(kind: &str) -> Vec<&'static str> { if kind == "string" || kind == "bool" { vec!["="] } else { OPS.to_vec() } }
+
+/// the reduced target set used for the kinds that are not searched in depth (one level from the initial state)
+pub fn is_core_target(a: &Ix, b: &Option<Ix>, r: usize, c: usize) -> bool {
+  let n = (r * c) as i64;
+  let core = |ix: &Ix, d: i64| match ix {
+    Ix::S(k) => *k == 1 || *k == d || *k == d + 1,
+    Ix::V(v) => v == &vec![1, d] || v == &vec![1, d + 1] || v == &vec![d, 1],
+    Ix::R(a, b, true) => (*a, *b) == (1, d),
+    Ix::All => true,
+    Ix::M(m) => m.len() as i64 == d && m.iter().enumerate().all(|(i, x)| *x == (i % 2 == 0)),
+    _ => false,
+  };
+  match b {
+    None => core(a, n) || matches!(a, Ix::V(v) if v == &vec![1, 2] || v == &vec![2, 2] || v == &vec![2, 1]) || matches!(a, Ix::R(1, 2, true)),
+    Some(b) => core(a, r as i64) && core(b, c as i64),
+  }
+}
 
 fn count_sel(a: &Ix, d: usize) -> Option<usize> { match a.select(d) { Sel::Ok(v) => Some(v.len()), _ => None } }
 
@@ -135,7 +159,7 @@ fn vec_elem(i: usize) -> String { format!("{}", 91 + i) }
 
 pub fn scalar_val(kind: &str, op: &str) -> String {
   let n = if op == "=" { 77 } else { 2 };
-  match kind { "string" => format!("\"z{}\"", n), "bool" => "true".into(), "f64" | "f32" => format!("{}.0", n), _ => format!("{}", n) }
+  match kind { "string" => format!("\"z{}\"", n), "bool" => "true".into(), "f64" | "f32" => format!("{}.0", n), "r64" => format!("{}/1", n), "c64" => format!("{}.0,0.0", n), _ => format!("{}", n) }
 }
 
 /// literal spelling of the scalar source (None where the kind has no unambiguous literal suffix)
@@ -171,20 +195,23 @@ pub fn helper_defs_for(kind: &str, r: usize, c: usize) -> Vec<String> {
     "f64" => { v.push("s77 := 77".to_string()); v.push("s2 := 2".to_string()); v.push("wk := \"s\"".to_string()); }
     "string" => { v.push("s77 := \"z77\"".to_string()); v.push("s2 := \"z2\"".to_string()); v.push("wk := 5".to_string()); }
     "bool" => { v.push("s77 := true".to_string()); v.push("s2 := true".to_string()); v.push("wk := 5".to_string()); }
+    "r64" => { v.push("s77 := 77/1".to_string()); v.push("s2 := 2/1".to_string()); v.push("wk := \"s\"".to_string()); }
+    "c64" => { v.push("s77 := 77+0i".to_string()); v.push("s2 := 2+0i".to_string()); v.push("wk := \"s\"".to_string()); }
     k => { v.push(format!("s77<{}> := 77", k)); v.push(format!("s2<{}> := 2", k)); v.push("wk := \"s\"".to_string()); }
   }
   for n in 1..=7usize {
-    let vals: Vec<String> = (0..n).map(|i| match kind { "string" => format!("\"w{}\"", 91 + i), "bool" => format!("{}", i % 2 == 0), _ => vec_elem(i) }).collect();
+    let vals: Vec<String> = (0..n).map(|i| match kind { "string" => format!("\"w{}\"", 91 + i), "bool" => format!("{}", i % 2 == 0), "r64" => format!("{}/1", 91 + i), "c64" => format!("{}+0i", 91 + i), _ => vec_elem(i) }).collect();
     v.push(define_matrix(&format!("v{}", n), kind, &vals, 1, n));
   }
   v
 }
 
 pub fn helper_elem_text(kind: &str, i: usize) -> String {
-  match kind { "string" => format!("\"w{}\"", 91 + i), "bool" => format!("{}", i % 2 == 0), "f64" | "f32" => format!("{}.0", 91 + i), _ => vec_elem(i) }
+  match kind { "string" => format!("\"w{}\"", 91 + i), "bool" => format!("{}", i % 2 == 0), "f64" | "f32" => format!("{}.0", 91 + i), "r64" => format!("{}/1", 91 + i), "c64" => format!("{}.0,0.0", 91 + i), _ => vec_elem(i) }
 }
 
-pub enum RefOut { MustError(&'static str), Unjudged(&'static str), Ok(Mat, Vec<usize>), /// a valid target that addresses nothing: accepted or rejected, x stays as it is
+pub enum RefOut { MustError(&'static str), Unjudged(&'static str), Ok(Mat, Vec<usize>), /// only the elements that are not addressed are fixed (they stay)
+  FrameOnly(Vec<usize>), /// a valid target that addresses nothing: accepted or rejected, x stays as it is
   Unchanged }
 
 /// reference store: apply one statement to the matrix
@@ -206,8 +233,17 @@ pub fn reference(m: &Mat, st: &Stmt) -> RefOut {
   };
   if st.src == Src::WrongKind { return RefOut::MustError("wrong-kind-source"); }
   if pos.is_empty() { return RefOut::Unchanged; }
-  let mut seen = BTreeSet::new();
-  if !pos.iter().all(|p| seen.insert(*p)) { return RefOut::Unjudged("repeated-index"); }
+  let seen: BTreeSet<usize> = pos.iter().copied().collect();
+  if seen.len() != pos.len() {
+    // a repeated position: with a scalar source and plain assignment every addressed element gets the value; otherwise only the frame is fixed
+    if st.op == "=" && matches!(st.src, Src::Scalar | Src::ScalarLit) {
+      let mut out = m.clone();
+      for p in &pos { out.e[*p] = scalar_val(&m.kind, st.op); }
+      let mut upos: Vec<usize> = seen.into_iter().collect(); upos.sort();
+      return RefOut::Ok(out, upos);
+    }
+    return RefOut::FrameOnly(seen.into_iter().collect());
+  }
   let srcs: Vec<String> = match st.src {
     Src::Scalar | Src::ScalarLit => vec![scalar_val(&m.kind, st.op); pos.len()],
     Src::VecExact | Src::VecLit => (0..pos.len()).map(|i| helper_elem_text(&m.kind, i)).collect(),
@@ -233,7 +269,7 @@ pub struct Payload { pub kind: String, pub r: usize, pub c: usize, pub history: 
 /// one job = one shape: every frontier state of every kind; a unit is a chunk of the statement alphabet,
 /// so that each statement text is parsed by exactly one worker
 #[derive(Serialize, Deserialize, Clone)]
-pub struct Level { pub r: usize, pub c: usize, pub entries: Vec<Payload> }
+pub struct Level { pub r: usize, pub c: usize, pub entries: Vec<Payload>, #[serde(default)] pub core_only: bool }
 
 pub const STMT_CHUNK: usize = 24;
 
@@ -241,7 +277,7 @@ pub struct C04 { tier: Tier, level: Option<(String, Level)>, alphas: std::collec
 
 pub fn init_values(kind: &str, r: usize, c: usize) -> Vec<String> {
   let mut v = vec![];
-  for i in 0..r { for j in 0..c { let n = 10 * (i + 1) + (j + 1); v.push(match kind { "string" => format!("\"s{}\"", n), "bool" => format!("{}", (i + j) % 2 == 0), _ => format!("{}", n) }); } }
+  for i in 0..r { for j in 0..c { let n = 10 * (i + 1) + (j + 1); v.push(match kind { "string" => format!("\"s{}\"", n), "bool" => format!("{}", (i + j) % 2 == 0), "r64" => format!("{}/7", n), "c64" => format!("{}+1i", n), _ => format!("{}", n) }); } }
   v
 }
 
@@ -259,7 +295,7 @@ impl C04 {
     // a private copy of the state, used to put x back between sibling transitions (whole-variable assignment copies)
     let vals: Vec<String> = p.state.e.clone();
     let keep = match p.kind.as_str() {
-      "f64" | "string" | "bool" => format!("keep := {}", p.state.literal()),
+      "f64" | "string" | "bool" | "c64" => format!("keep := {}", p.state.literal()),
       k => format!("keep<[{}]> := {}", k, p.state.literal()),
     };
     let _ = vals;
@@ -291,6 +327,11 @@ fn transition(s: &mut Session, p: &Payload, st: &Stmt, pre: &Mat, out: &mut Work
   match (&rf, &o) {
     (_, Outcome::Panic(m)) => { out.fail(format!("C04|panic|{}", locus), case.clone(), m.clone()); }
     (RefOut::Unjudged(why), _) => { out.count(&format!("unjudged:{}", why)); }
+    (RefOut::FrameOnly(pos), _) => {
+      out.count("unjudged:repeated-index(frame only)");
+      out.nontrivial += 1;
+      if (0..pre.e.len()).any(|i| !pos.contains(&i) && post.e.get(i) != pre.e.get(i)) { out.fail(format!("C04|frame-broken|{}", locus), case.clone(), format!("an element that is not addressed changed: x is now {}", post.short())); }
+    }
     (RefOut::Unchanged, _) => {
       out.nontrivial += 1;
       out.count("addresses_nothing");
@@ -319,7 +360,8 @@ fn transition(s: &mut Session, p: &Payload, st: &Stmt, pre: &Mat, out: &mut Work
         // reading the same index afterwards returns what was written
         let idx = match &st.b { None => st.a.text(), Some(b) => format!("{},{}", st.a.text(), b.text()) };
         let rd = s.run(&format!("x[{}]", idx));
-        if let Outcome::Value(c) = &rd {
+        let repeats = pos.len() != st.n_addr;
+        if let (Outcome::Value(c), false) = (&rd, repeats) {
           let got: Vec<String> = match c.as_matrix() { Some((_, _, e)) => e.iter().map(|x| x.bare()).collect(), None => vec![c.bare()] };
           let wanted: Vec<String> = pos.iter().map(|i| want.e[*i].clone()).collect();
           if got != wanted { out.fail(format!("C04|readback-differs|{}", locus), case.clone(), format!("x[{}] reads {:?}, written {:?}", idx, got, wanted)); }
@@ -356,6 +398,7 @@ impl UnitRunner for C04 {
       let mut sess: Option<(Session, bool, Vec<(String, bool, Canon)>)> = None;
       for si in lo..hi {
         let st = &alpha[si];
+        if level.core_only && !(is_core_target(&st.a, &st.b, p.r, p.c) && (st.ik.is_none() || st.ik == Some("u8") || st.ik == Some("i64"))) { continue; }
         out.evaluations += 1;
         let mut attempt = 0;
         loop {
@@ -425,6 +468,7 @@ impl Check for C04 {
     let mut transitions = 0u64;
     let mut per_depth: BTreeMap<String, serde_json::Value> = BTreeMap::new();
     let mut capped = false;
+    let mut kind_sweep_transitions = 0u64;
     let scratch = format!("{}/target/c04-levels", crate::report::verif_dir());
     let _ = std::fs::create_dir_all(&scratch);
     for (r, c) in &shapes {
@@ -438,7 +482,7 @@ impl Check for C04 {
       let nalpha = kinds.iter().map(|k| alphabet(*r, *c, k, tier).len()).max().unwrap_or(0);
       let nunits = ((nalpha + STMT_CHUNK - 1) / STMT_CHUNK) as u64;
       for d in 0..depth {
-        let level = Level { r: *r, c: *c, entries: frontier.clone() };
+        let level = Level { r: *r, c: *c, entries: frontier.clone(), core_only: false };
         let path = format!("{}/{}-{}x{}-d{}.json", scratch, tier.name(), r, c, d);
         std::fs::write(&path, serde_json::to_string(&level).unwrap()).unwrap();
         let jobs = range_jobs(&path, nunits, 1);
@@ -470,6 +514,23 @@ impl Check for C04 {
       }
       total_states += seen.len() as u64;
     }
+    // every other element kind: one level from the initial state over the reduced target set (all operators and sources)
+    let sweep_kinds: Vec<&str> = ALL_KINDS.iter().copied().filter(|k| !kinds.contains(k)).collect();
+    for (r, c) in &shapes {
+      let mut entries = vec![];
+      for kind in &sweep_kinds {
+        let init = Mat { kind: kind.to_string(), r: *r, c: *c, e: init_values(kind, *r, *c).iter().map(|v| if *kind == "string" { v.clone() } else { super::c01::canon_text(kind, v) }).collect() };
+        entries.push(Payload { kind: kind.to_string(), r: *r, c: *c, history: vec![], state: init });
+      }
+      let nalpha = sweep_kinds.iter().map(|k| alphabet(*r, *c, k, tier).len()).max().unwrap_or(0);
+      let nunits = ((nalpha + STMT_CHUNK - 1) / STMT_CHUNK) as u64;
+      let level = Level { r: *r, c: *c, entries, core_only: true };
+      let path = format!("{}/{}-{}x{}-kinds.json", scratch, tier.name(), r, c);
+      std::fs::write(&path, serde_json::to_string(&level).unwrap()).unwrap();
+      run_jobs(cfg, range_jobs(&path, nunits, 4), &mut |ev| { if let Event::Done(_j, o) = &ev { transitions += o.extra.len() as u64; kind_sweep_transitions += o.extra.len() as u64; } rep.absorb(ev); });
+      rep.out.extra.clear();
+    }
+    rep.cov("kind_sweep", json!({"kinds": sweep_kinds, "transitions": kind_sweep_transitions, "depth": 1, "targets": "reduced set (boundary scalars, two-element and full vectors, 1..d, ':', alternating mask per dimension; 1-D repeats)"}));
     // valid-rejected: a violation only where plain assignment through the same target form is supported on this storage class
     let supported = rep.out.sets.get("supported").cloned().unwrap_or_default();
     let before = rep.out.failures.len();
@@ -500,7 +561,7 @@ impl Check for C04 {
       evaluations = transitions; non-trivial = transitions the reference fixes (written values or must-fail-and-leave-x-unchanged)", depth);
     rep.assumptions = vec![
       "there is no separate model whose traces could diverge: every transition is executed on the real code (traces_validated_against_impl = transitions)".into(),
-      "repeated indices in a vector target, empty selections, degenerate ranges, sources whose length differs from the target and unrepresentable op-assign results are not judged beyond shape/kind preservation".into(),
+      "a repeated position in a vector target is judged in full for plain assignment of a scalar and by the frame condition otherwise; empty selections must leave x unchanged; degenerate ranges, sources whose length differs from the target and unrepresentable op-assign results are not judged beyond shape/kind preservation".into(),
       "a valid statement that is rejected counts as a violation only if the same (target form pair, operator, source class) is accepted for some other value/state on that storage class; otherwise the combination is unsupported (e.g. todo!() op-assign forms), listed in evidence, not judged".into(),
     ];
     if transitions < 1000 { rep.vacuity.push(format!("only {} transitions", transitions)); }
